@@ -108,26 +108,34 @@ def binop_grid_tie(ctx, differ):
     exprs, meta = [], []
     pcs = list(PCS)
     if ctx.tier != "thorough":
-        # PAssert behaves like PIf and POther like PNone in the code under test; quick keeps one of the two
-        drop = ctx.rng("pcs").choice(["PAssert", "POther"])
-        pcs = [p for p in pcs if p[0] != drop]
+        # PAssert behaves like PIf and POther like PNone in the code under test: quick keeps PNone / PIf / PIszero
+        # (thorough: all five); the EVM grid below still runs assert and plain-argument contexts
+        pcs = [p for p in pcs if p[0] not in ("PAssert", "POther")]
     for op in BOPS_ARITH:
         for pcn, pv in pcs:
             doms = [("AS", "BS", A, B)] if op != "exp" else [("AS", "EBS", A, exp_b_small), ("EAB", "EBB", exp_a_big, exp_b_big)]
             for da, db, la, lb in doms:
                 exprs.append(f"map (fun p => show_res (opt_binop B_{op} (fst p) (snd p) {pcn})) (list_prod {da} {db})")
                 meta.append((op, pv, la, lb))
-    outs = coqrun.eval_cases(IMPORTS + defs, exprs, "c15binop", shard=(len(exprs) + 3) // 4,
-                             timeout=220 if ctx.tier != "thorough" else 900)
+    # the Coq evaluation (subprocesses) and the real optimiser (this process) run side by side
+    from concurrent.futures import ThreadPoolExecutor
+    tb = time.time()
+    with ThreadPoolExecutor(max_workers=1) as ex:
+        fut = ex.submit(coqrun.eval_cases, IMPORTS + defs, exprs, "c15binop", shard=(len(exprs) + 3) // 4,
+                        timeout=220 if ctx.tier != "thorough" else 900)
+        reals = [[real_binop(op, a, b, pv) for a in la for b in lb] for (op, pv, la, lb) in meta]
+        tr = time.time() - tb
+        outs = fut.result()
+    ctx.corr["binop_seconds_real_total"] = [round(tr, 1), round(time.time() - tb, 1)]
     n, rewrites, mism = 0, 0, []
-    for (op, pv, la, lb), o in zip(meta, outs):
+    for (op, pv, la, lb), o, rl in zip(meta, outs, reals):
         strs = STRS.findall(o)
         if len(strs) != len(la) * len(lb):
             raise RuntimeError(f"coq output size mismatch for {op}: {len(strs)}")
         i = 0
         for a in la:
             for b in lb:
-                r = real_binop(op, a, b, pv)
+                r = rl[i]
                 n += 1
                 if r != "N":
                     rewrites += 1
@@ -681,7 +689,7 @@ def real_lower_tie(ctx):
     rnd = ctx.rng("reallower")
     contracts = OWN + list(CORPUS)
     if ctx.tier != "thorough":
-        contracts = rnd.sample(OWN, 2) + rnd.sample(list(CORPUS), 3)
+        contracts = rnd.sample(OWN, 2) + rnd.sample(list(CORPUS), 2)
 
     def clean(x):      # label names are source text: keep them printable inside a Coq string, same on both sides
         return x.replace('"', "'").replace("\n", " ").replace("\\", "/")
@@ -696,9 +704,6 @@ def real_lower_tie(ctx):
                     fi = FileInput(0, pathlib.Path(c["name"] + ".vy"), pathlib.Path(c["name"] + ".vy"), c["src"])
                     cd = CompilerData(fi, settings=st)
                     ir = cd.ir_runtime
-                    asm = compile_ir.compile_to_assembly(ir, OptimizationLevel.NONE)
-                    r = [clean(c15_asm.show_item(x)) for x in c15_asm.from_real(list(asm))]
-                    coq = c15_tree.coq_of_node_real(ir, clean)
             except Exception as e:  # noqa: contract needs other settings (decimals) -> not this tie's concern
                 skipped += 1
                 ctx.log(f"real_lower: {c['name']} {lvl} skipped: {type(e).__name__}")
@@ -714,6 +719,16 @@ def real_lower_tie(ctx):
                     ctx.violation("correspondence-broken", "front-end IR violates the shape assumed by the symbol theorems "
                                   "(leaf-named markers, unique_symbols succeeds at every node)",
                                   {"contract": c["name"], "optimize": str(lvl), "error": f"{type(e).__name__}: {str(e)[:300]}"})
+                continue
+            try:
+                with anchor_settings(st):
+                    asm = compile_ir.compile_to_assembly(ir, OptimizationLevel.NONE)
+                    r = [clean(c15_asm.show_item(x)) for x in c15_asm.from_real(list(asm))]
+                    coq = c15_tree.coq_of_node_real(ir, clean)
+            except Exception as e:  # noqa
+                skipped += 1
+                ctx.log(f"real_lower: {c['name']} {lvl} skipped: {type(e).__name__}")
+                continue
             sites, bad = frame_shape(ir)
             for k, v in sites.items():
                 sites_all[k] = sites_all.get(k, 0) + v
@@ -768,7 +783,7 @@ def glue_corpus(ctx):
                 continue
             ref = observe_contract(c["src"], Config(False, "none", evm), plan, HELPER, abi)
         except Exception as e:  # noqa: contract does not compile unoptimised -> not this property's concern
-            if c["name"] == "c15_dead_extcall" and type(e).__name__ == "CompilerPanic":
+            if c["name"] == "c15_dead_extcall" and type(e).__name__ == "CompilerPanic" and "missing symbols" in str(e):
                 # make_plan compiles with the default (optimising) settings
                 report_once(ctx, "optimizer-symbol-check-stale-set",
                             "valid program: the legacy optimiser panics (_check_symbols) on a dead branch holding an extcall",
